@@ -1,4 +1,5 @@
 import HexProofs.Writes.PropsLib
+import HexProofs.Writes.PresenceLate
 /-
 C13 – Indicators sharing candles do not interfere with one another (every float carrier `F`).
 
@@ -13,7 +14,15 @@ Proved here, from the writes-only theorem of the engine (`HexProofs/Writes/Engin
       can read a name of the other members (distinct names, no input dependency).  Proof: both Hexitals are in
       step with the same standalone twin (`member_twin`, built on the read-set locality of all 28 kinds).
       The programs may also add further members and remove other members.
-Stated, not proved (`presence_FULL`): the same when `a` itself is added later by `add_indicator` (needs C01).
+  (d) `presence_late`: the same when `a` itself is added LATER by `add_indicator` (any number of times, at different
+      points of the two programs, which may chunk the stream differently): for a member without its own timeframe,
+      every class (`presence_late_covered`, `CoveredTreeX`), under any Hexital-level timeframe / gap filling.
+      Proof: an invariant says the default manager's candles are – up to the other members' entries – resumable over
+      the stream for `a`'s row-major spec whether or not `a` is registered; the closing `calculate()` then gives the
+      batch result, which depends on the stream alone (C01).
+Stated, not proved (`presence_FULL`): (d) for a late-added member WITH its own timeframe and under Heikin-Ashi.  The
+first formulation of that statement (`presence_FULL_v1`) is refuted (`presence_FULL_v1_false`): it did not tie the
+operations aimed at `a` itself, which the property does not quantify over.
 -/
 namespace Hex.C13
 open Hex
@@ -134,15 +143,12 @@ theorem presence (cfg : MgrCfg) (tf : Option String) (init : List (Candle F)) (m
   exact ⟨hi₁, m₁, hi₂, m₂, a1, a3, b1, b3, a5.trans b5.symm,
     fun k hk => (a6 k (ht₁ ▸ hk)).trans (b6 k (ht₁ ▸ hk)).symm⟩
 
-/-- **General statement (not proved).**  As `presence`, but `a` need not be handed to the constructor: it
-is enough that it is registered at the end (it may have been added by `add_indicator` at different
-points of the two programs).  `member_twin` does not cover this: its twin exists from the construction
-on.  A member added later is calculated in one batch over candles that were appended one by one
-before, so the statement additionally needs schedule independence (C01: incremental = batch) for
-`a`'s tree, and – for a member with its own timeframe added to a calculated Hexital – that the new
-manager is built from candles without the other members' readings (true unless the member's timeframe
-is the Hexital's own, where `_validate_indicators` copies the default manager's candles as they are). -/
-def presence_FULL : Prop :=
+/-- First formulation of the general statement – FALSE (`presence_FULL_v1_false`): it leaves the operations
+aimed at `a` ITSELF unconstrained and unrelated between the two programs (a `calculate_index(a, 3)` in one world only
+leaves an out-of-order value that `calculate()` then keeps), lets the constructor lists hold a different tree under
+`a`'s name, and allows a lifespan (a late-added member is seeded on the already trimmed candles, so WHEN it is added
+matters – that is C15's subject, not interference by another member). -/
+def presence_FULL_v1 : Prop :=
   ∀ {F : Type} [PyF F] (cfg : MgrCfg) (tf : Option String) (init : List (Candle F)) (ms₁ ms₂ : List (Member F))
     (a : Member F) (N₁ N₂ : List String) (ops₁ ops₂ : List (TwinOp F)) (H₁ H₂ : Hexital F),
     (∀ m, m ∈ Hexital.dedupe ms₁ → m.tree.name ≠ a.tree.name → ∀ k, k ∈ m.tree.allNames → k ∈ N₁) →
@@ -164,6 +170,94 @@ def presence_FULL : Prop :=
     runHexital cfg tf init ms₂ (ops₂ ++ [.calculate none]) = .ok H₂ →
     (∃ hi, dlookup a.tree.name H₁.indicators = some hi ∧ hi.tree = a.tree) →
     (∃ hi, dlookup a.tree.name H₂.indicators = some hi ∧ hi.tree = a.tree) →
+    ∀ name, (splitDot name).headD "" = a.tree.name → readOK N₁ name = true → readOK N₂ name = true →
+      H₁.readingAsList name = H₂.readingAsList name
+
+/-- the first formulation is false: one Hexital, the single member `EMA_2` in both worlds, world 1 calls
+`calculate_index("EMA_2", 3)` before the closing `calculate()` (replayed on the library as well) -/
+theorem presence_FULL_v1_false : ¬ presence_FULL_v1 := Hex.presence_FULL_counterexample
+
+/-- … and a lifespan makes a late-added member depend on WHEN it was added (model witness over `Int`; the library
+agrees) – the reason the corrected statement excludes it -/
+example := @Hex.late_add_lifespan_differs
+
+/-- **(d) `a` added later – PROVED for a member without its own timeframe.**  `a` may be handed to the constructor
+or added by `add_indicator` any number of times at any point; the other members may come and go; `calculate`,
+`purge`, `recalculate`, `append`, `remove(None)` may be aimed at anything, `calculate_index` at any other member
+(`TwinOp.LateOK`); the two programs need only feed the same candles overall (different chunking allowed); the
+Hexital-level configuration is any `MgrSpec` (base, timeframe, timeframe + fill).  Then the columns of `a` and
+what is stored under its names agree. -/
+theorem presence_late (M : MgrSpec F) (tf₁ tf₂ : Option String) (init : List (Candle F)) (ms₁ ms₂ : List (Member F))
+    (a : Member F) (N₁ N₂ : List String) (ops₁ ops₂ : List (TwinOp F)) (H₁ H₂ : Hexital F) (T : TreeSpec a.tree)
+    (hatf : a.tfName = none)
+    (hms₁ : ∀ m, m ∈ Hexital.dedupe ms₁ → m = a ∨ (m.tree.name ≠ a.tree.name ∧ ∀ k, k ∈ m.tree.allNames → k ∈ N₁))
+    (hms₂ : ∀ m, m ∈ Hexital.dedupe ms₂ → m = a ∨ (m.tree.name ≠ a.tree.name ∧ ∀ k, k ∈ m.tree.allNames → k ∈ N₂))
+    (hok₁ : TreeOK N₁ a.tree) (hok₂ : TreeOK N₂ a.tree)
+    (hops₁ : ∀ op, op ∈ ops₁ → op.LateOK N₁ a) (hops₂ : ∀ op, op ∈ ops₂ → op.LateOK N₂ a)
+    (hsame : (TwinOp.chunks ops₁).flatten = (TwinOp.chunks ops₂).flatten)
+    (hs : M.Ok (init ++ (TwinOp.chunks ops₁).flatten))
+    (hr₁ : runHexital M.cfg tf₁ init ms₁ (ops₁ ++ [.calculate none]) = .ok H₁)
+    (hr₂ : runHexital M.cfg tf₂ init ms₂ (ops₂ ++ [.calculate none]) = .ok H₂)
+    (hreg₁ : ∃ hi, dlookup a.tree.name H₁.indicators = some hi)
+    (hreg₂ : ∃ hi, dlookup a.tree.name H₂.indicators = some hi) :
+    (∀ name, (splitDot name).headD "" = a.tree.name → readOK N₁ name = true → readOK N₂ name = true →
+        H₁.readingAsList name = H₂.readingAsList name) ∧
+    (∃ hi₁ m₁ hi₂ m₂, dlookup a.tree.name H₁.indicators = some hi₁ ∧ dlookup hi₁.mgrKey H₁.managers = some m₁ ∧
+        dlookup a.tree.name H₂.indicators = some hi₂ ∧ dlookup hi₂.mgrKey H₂.managers = some m₂ ∧
+        hi₁.tree = a.tree ∧ hi₂.tree = a.tree ∧
+        m₁.candles.map Candle.core = m₂.candles.map Candle.core ∧
+        ∀ k, k ∈ a.tree.allNames → storedUnder k m₁.candles = storedUnder k m₂.candles) :=
+  Hex.presence_late M tf₁ tf₂ init ms₁ ms₂ a N₁ N₂ ops₁ ops₂ H₁ H₂ T hatf hms₁ hms₂ hok₁ hok₂ hops₁ hops₂ hsame hs
+    hr₁ hr₂ hreg₁ hreg₂
+
+/-- … for EVERY shipped class (`CoveredTreeX`), under any Hexital-level timeframe, gap filling on or off -/
+theorem presence_late_covered (tfs : Option Int) (htfs : ∀ t, tfs = some t → 0 < t) (fill : Bool)
+    (tf₁ tf₂ : Option String) (init : List (Candle F)) (ms₁ ms₂ : List (Member F))
+    (a : Member F) (k : Kind F) (name : String) (round : Nat) (hk : CoveredTreeX name k)
+    (ha : a.tree = mkTop k name round) (hatf : a.tfName = none)
+    (N₁ N₂ : List String) (ops₁ ops₂ : List (TwinOp F)) (H₁ H₂ : Hexital F)
+    (hms₁ : ∀ m, m ∈ Hexital.dedupe ms₁ → m = a ∨ (m.tree.name ≠ a.tree.name ∧ ∀ k, k ∈ m.tree.allNames → k ∈ N₁))
+    (hms₂ : ∀ m, m ∈ Hexital.dedupe ms₂ → m = a ∨ (m.tree.name ≠ a.tree.name ∧ ∀ k, k ∈ m.tree.allNames → k ∈ N₂))
+    (hok₁ : TreeOK N₁ a.tree) (hok₂ : TreeOK N₂ a.tree)
+    (hops₁ : ∀ op, op ∈ ops₁ → op.LateOK N₁ a) (hops₂ : ∀ op, op ∈ ops₂ → op.LateOK N₂ a)
+    (hsame : (TwinOp.chunks ops₁).flatten = (TwinOp.chunks ops₂).flatten)
+    (hraw : RawTf (init ++ (TwinOp.chunks ops₁).flatten))
+    (hr₁ : runHexital { tf := tfs, fill := fill && tfs.isSome } tf₁ init ms₁ (ops₁ ++ [.calculate none]) = .ok H₁)
+    (hr₂ : runHexital { tf := tfs, fill := fill && tfs.isSome } tf₂ init ms₂ (ops₂ ++ [.calculate none]) = .ok H₂)
+    (hreg₁ : ∃ hi, dlookup a.tree.name H₁.indicators = some hi)
+    (hreg₂ : ∃ hi, dlookup a.tree.name H₂.indicators = some hi) :
+    ∀ nm, (splitDot nm).headD "" = a.tree.name → readOK N₁ nm = true → readOK N₂ nm = true →
+      H₁.readingAsList nm = H₂.readingAsList nm :=
+  Hex.presence_late_covered tfs htfs fill tf₁ tf₂ init ms₁ ms₂ a k name round hk ha hatf N₁ N₂ ops₁ ops₂ H₁ H₂
+    hms₁ hms₂ hok₁ hok₂ hops₁ hops₂ hsame hraw hr₁ hr₂ hreg₁ hreg₂
+
+/-- **General statement (not proved).**  `presence_late` for ANY member – with its own timeframe as well – and
+under Heikin-Ashi, i.e. what (c) and (d) leave open: a member WITH a timeframe (or under a Heikin-Ashi Hexital)
+that is added late.  Excluded on purpose, because there the readings depend on WHEN `a` was added and not on the
+other members: a lifespan (`late_add_lifespan_differs`), and a Hexital-level timeframe together with a different
+member timeframe (a manager created late is built from the already collapsed default candles: collapsing twice
+re-associates the volume sum, which is not exact for doubles).  What a proof needs: a two-manager invariant (the
+manager under `a`'s key, once it exists, is resumable over its own spec of the stream; until then the default
+manager holds the stream up to what `reset` wipes) and "creation commutes with feeding" (immediate for the plain
+configuration from `MgrSpec.init`; under Heikin-Ashi it needs the effect of `recover_clean_values`). -/
+def presence_FULL : Prop :=
+  ∀ {F : Type} [PyF F] (cfg : MgrCfg) (tf₁ tf₂ : Option String) (init : List (Candle F)) (ms₁ ms₂ : List (Member F))
+    (a : Member F) (N₁ N₂ : List String) (ops₁ ops₂ : List (TwinOp F)) (H₁ H₂ : Hexital F),
+    cfg.lifespan = none → (a.tfName ≠ none → cfg.tf = none) →
+    (∀ m, m ∈ Hexital.dedupe ms₁ → m = a ∨ (m.tree.name ≠ a.tree.name ∧ ∀ k, k ∈ m.tree.allNames → k ∈ N₁)) →
+    (∀ m, m ∈ Hexital.dedupe ms₂ → m = a ∨ (m.tree.name ≠ a.tree.name ∧ ∀ k, k ∈ m.tree.allNames → k ∈ N₂)) →
+    TreeOK N₁ a.tree → TreeOK N₂ a.tree →
+    (∀ op, op ∈ ops₁ → op.LateOK N₁ a) → (∀ op, op ∈ ops₂ → op.LateOK N₂ a) →
+    -- members sharing `a`'s timeframe name carry the same number of seconds
+    (∀ op, op ∈ ops₁ ++ ops₂ → match op with
+      | .add ms => ∀ m, m ∈ ms → m.tfName = a.tfName → m.tfSecs = a.tfSecs
+      | _ => True) →
+    (∀ m, m ∈ ms₁ ++ ms₂ → m.tfName = a.tfName → m.tfSecs = a.tfSecs) →
+    (TwinOp.chunks ops₁).flatten = (TwinOp.chunks ops₂).flatten →
+    runHexital cfg tf₁ init ms₁ (ops₁ ++ [.calculate none]) = .ok H₁ →
+    runHexital cfg tf₂ init ms₂ (ops₂ ++ [.calculate none]) = .ok H₂ →
+    (∃ hi, dlookup a.tree.name H₁.indicators = some hi) →
+    (∃ hi, dlookup a.tree.name H₂.indicators = some hi) →
     ∀ name, (splitDot name).headD "" = a.tree.name → readOK N₁ name = true → readOK N₂ name = true →
       H₁.readingAsList name = H₂.readingAsList name
 
